@@ -158,7 +158,7 @@ func (k *Kernel) procMain(p *Proc) {
 		}
 
 		if spec.Shell {
-			runErr = k.shellLoop(ctx, proc, spec)
+			runErr = k.shellLoop(ctx, proc, spec, p)
 		} else {
 			outfile := ""
 			if spec.OutFile != "" {
@@ -195,7 +195,7 @@ func (p *Proc) cancelledByCtl() bool { return p.cancelled }
 
 // shellLoop mimics the interactive shell: one Execute per statement text,
 // AutoCommit off, an error does not end the session.
-func (k *Kernel) shellLoop(ctx context.Context, proc *query.Processor, spec *ProcSpec) error {
+func (k *Kernel) shellLoop(ctx context.Context, proc *query.Processor, spec *ProcSpec, p *Proc) error {
 	out := func(format string, args ...interface{}) {
 		_ = proc.Tx.Session.WriteToStdout(fmt.Sprintf(format, args...))
 	}
@@ -215,7 +215,11 @@ func (k *Kernel) shellLoop(ctx context.Context, proc *query.Processor, spec *Pro
 		before := astString(stmts)
 		for r := 0; r < rep; r++ {
 			out("@S %d.%d\n", i, r)
-			flow, e := proc.Execute(ctx, stmts)
+			sctx, scancel := context.WithCancel(ctx)
+			p.stmt.set(scancel)
+			flow, e := proc.Execute(sctx, stmts)
+			p.stmt.set(nil)
+			scancel()
 			if e != nil {
 				if ex, ok := e.(*query.ForcedExit); ok {
 					return ex
